@@ -18,7 +18,7 @@ use winter_fri::{
     VerifierChannel, VerifierError,
 };
 use winter_math::{
-    fields::{f128, f62, f64, QuadExtension},
+    fields::{f128, f62, f64, CubeExtension, QuadExtension},
     FieldElement, StarkField,
 };
 use winter_utils::{Deserializable, Serializable};
@@ -323,6 +323,39 @@ impl El<f64::BaseElement> for QuadExtension<f64::BaseElement> {
     }
 }
 
+// the large-element fields below are used by the e2e lines only (reference elements carry two components; the
+// reference multiplication is not that of these fields): quadratic extension of f128 (32-byte elements), cubic
+// extensions of f64 / f62 (24-byte elements, third component filled from the first two)
+impl El<f128::BaseElement> for QuadExtension<f128::BaseElement> {
+    const EXT: bool = true;
+    fn from_o(o: O) -> Self {
+        QuadExtension::new(f128::BaseElement::from_word(o.0), f128::BaseElement::from_word(o.1))
+    }
+    fn to_o(&self) -> O {
+        O(self.base_element(0).canon(), self.base_element(1).canon())
+    }
+}
+impl El<f64::BaseElement> for CubeExtension<f64::BaseElement> {
+    const EXT: bool = true;
+    fn from_o(o: O) -> Self {
+        let (a, b) = (f64::BaseElement::from_word(o.0), f64::BaseElement::from_word(o.1));
+        CubeExtension::new(a, b, a * b + b)
+    }
+    fn to_o(&self) -> O {
+        O(self.base_element(0).canon(), self.base_element(1).canon())
+    }
+}
+impl El<f62::BaseElement> for CubeExtension<f62::BaseElement> {
+    const EXT: bool = true;
+    fn from_o(o: O) -> Self {
+        let (a, b) = (f62::BaseElement::from_word(o.0), f62::BaseElement::from_word(o.1));
+        CubeExtension::new(a, b, a * b + b)
+    }
+    fn to_o(&self) -> O {
+        O(self.base_element(0).canon(), self.base_element(1).canon())
+    }
+}
+
 pub fn to_els<B: Fld, E: El<B>>(xs: &[O]) -> Vec<E> {
     xs.iter().map(|x| E::from_o(*x)).collect()
 }
@@ -369,6 +402,13 @@ pub fn dispatch(fld: &str, hasher: &str, job: &impl Job) -> Outcome {
         ("f128", "b3") => job.run::<B128, B128, Blake3_256<B128>>(OF::of::<B128>(false)),
         ("f128", "b192") => job.run::<B128, B128, Blake3_192<B128>>(OF::of::<B128>(false)),
         ("f128", "sha3") => job.run::<B128, B128, Sha3_256<B128>>(OF::of::<B128>(false)),
+        // large elements (e2e lines only)
+        ("q128", "b3") => job.run::<B128, QuadExtension<B128>, Blake3_256<B128>>(OF::of::<B128>(true)),
+        ("q128", "sha3") => job.run::<B128, QuadExtension<B128>, Sha3_256<B128>>(OF::of::<B128>(true)),
+        ("c64", "b3") => job.run::<B64, CubeExtension<B64>, Blake3_256<B64>>(OF::of::<B64>(true)),
+        ("c64", "rp64") => job.run::<B64, CubeExtension<B64>, Rp64_256>(OF::of::<B64>(true)),
+        ("c62", "b3") => job.run::<B62, CubeExtension<B62>, Blake3_256<B62>>(OF::of::<B62>(true)),
+        ("c62", "sha3") => job.run::<B62, CubeExtension<B62>, Sha3_256<B62>>(OF::of::<B62>(true)),
         _ => Outcome::ok("bad-op"),
     }
 }
